@@ -793,6 +793,9 @@ func (t *T) fail(now bool, msg string) {
 	t.mu.Lock()
 	defer t.mu.Unlock()
 
+	if msg == "" {
+		msg = "(empty failure message)" // empty t.failed means "not failed"
+	}
 	t.failed = stopTest(msg)
 	if now {
 		panic(t.failed)
